@@ -114,7 +114,10 @@ class CliDiff(Stream):
 
     def corpus(self):
         return [{"users": ['job.title = "$(VERIF_V)_old/model.pdb"\n']}, {"users": ["job.n = 2\n", "job.header = $(VERIF_V)2\n"]},
-                {"users": ['job.title = "$(VERIF_V)/model.pdb"\njob.header = $VERIF_V\n']}]
+                {"users": ['job.title = "$(VERIF_V)/model.pdb"\njob.header = $VERIF_V\n']},
+                # the text after the reference comes from another variable that does resolve
+                {"users": ['job.header = abc\njob.title = "$(VERIF_V)$(job.header)"\n']},
+                {"users": ['job.header = _old\n', 'job.title = $VERIF_V$(job.header)/m.pdb\n']}]
 
     def cases(self, rng, tier):
         for _ in range(60 if tier == "quick" else 800):
